@@ -36,6 +36,7 @@ type Session struct {
 	sharedStore     bool // the store is used by other goroutines: its traffic is not this session's
 	keyCompare      func(a, b interface{}) (int, error)
 	marshal         func(interface{}) ([]byte, error)
+	unmarshal       func([]byte, interface{}) error
 	lastActs        int
 	lastHsync       string
 	byContent       map[string]string // decoded node -> bytes it was written as
@@ -58,6 +59,9 @@ func NewSession(cfg Cfg) *Session {
 		s.Cache = &recCache{inner: mast.NewNodeCache(2), seen: map[string]interface{}{}}
 	}
 	s.graph = newGraphTracker()
+	if cfg.KK == "skc" {
+		s.marshal, s.unmarshal = customMarshal, customUnmarshal
+	}
 	return s
 }
 
@@ -69,6 +73,7 @@ func (s *Session) remoteConfig() *mast.RemoteConfig {
 		NodeCache:               s.Cache,
 		KeyCompare:              s.keyCompare,
 		Marshal:                 s.marshal,
+		Unmarshal:               s.unmarshal,
 
 		UnmarshalerUsesRegisteredTypes: s.Cfg.RegMode(),
 	}
@@ -381,6 +386,45 @@ func (s *Session) Exec(line string) (obs string, viol string) {
 			viol = fmt.Sprintf("a callback failing after %d entries saw [%s], the first entries are [%s]", j+1, strings.Join(got, ","), strings.Join(want, ","))
 		}
 		return res + " [" + strings.Join(got, ",") + "]", viol
+	case "iterdone":
+		// iterdone <slot> <j>: the callback returns ErrIterDone once it has seen j entries; Iter
+		// must stop without error, having delivered exactly those, and never call it again
+		m := tree(1)
+		if m == nil {
+			return "bad-slot", ""
+		}
+		j := int(num(2))
+		var got []string
+		done, after := false, 0
+		err := m.Iter(s.ctx, func(k, v interface{}) error {
+			if done {
+				after++
+				return mast.ErrIterDone
+			}
+			if len(got) >= j {
+				done = true
+				return mast.ErrIterDone
+			}
+			got = append(got, fmt.Sprintf("%d=%d", s.Cfg.KeyNat(k), s.Cfg.ValNat(v)))
+			return nil
+		})
+		if err != nil {
+			return errClass(err), "Iter stopped by its callback returned an error: " + err.Error()
+		}
+		o := s.Oracle[int(num(1))]
+		var want []string
+		for _, k := range sortedKeys64(o) {
+			if len(want) >= j {
+				break
+			}
+			want = append(want, fmt.Sprintf("%d=%d", k, o[k]))
+		}
+		if after > 0 {
+			viol = fmt.Sprintf("Iter called the callback %d more time(s) after it had signalled done", after)
+		} else if strings.Join(got, ",") != strings.Join(want, ",") {
+			viol = fmt.Sprintf("a callback signalling done after %d entries saw [%s], the first entries are [%s]", j, strings.Join(got, ","), strings.Join(want, ","))
+		}
+		return "[" + strings.Join(got, ",") + "]", viol
 	case "getnil":
 		// Get with a nil value pointer only reports presence
 		m := tree(1)
